@@ -1,0 +1,6 @@
+//go:build !verif
+
+package syncutils
+
+// verifYield is a scheduling point for the verification harness; without the build tag "verif" it does nothing.
+func verifYield(string) {}
